@@ -3,6 +3,7 @@ package sim
 import (
 	"context"
 	"fmt"
+	"google.golang.org/grpc/metadata"
 	"io"
 	"time"
 
@@ -81,6 +82,10 @@ func phasePlans(c *Chooser, n int, tunnel int, fcOn bool) []*RPCPlan {
 			}
 		case 7: // handler waits for its context to end
 			p.Handler = []Op{{Kind: OpRecv}, {Kind: OpAwaitCtx}, {Kind: OpReturn, St: nil}}
+			if (len(p.ReqSizes)+len(p.RespSizes))%2 == 0 {
+				// ... and then sends headers, not having noticed that the RPC is over
+				p.Handler = []Op{{Kind: OpRecv}, {Kind: OpAwaitCtx}, {Kind: OpSendHeader, MD: metadata.Pairs("late-header", "after-the-end")}, {Kind: OpReturn, St: nil}}
+			}
 			p.HandlerSend = nil
 			p.neverEnds = true
 			// without a fault only the caller's deadline ends this RPC
@@ -133,6 +138,14 @@ func runTeardown(w *World, rs *RunSpec) {
 	var descs []any
 	for _, p := range plans {
 		descs = append(descs, planDesc(p))
+	}
+	fromHandler := rs.P("fromhandler", 0) == 1 && t.RevServer != nil && cause == CauseStop
+	if fromHandler {
+		// Stop is called by the handler of the first RPC instead of by the director
+		plans[0].Handler = []Op{{Kind: OpRecv}, {Kind: OpStopServer}, {Kind: OpReturn}}
+		plans[0].HandlerSend = nil
+		descs[0] = planDesc(plans[0])
+		w.Desc["stop_called_from_handler"] = true
 	}
 	w.Desc["rpcs"] = descs
 	if k == -2 {
@@ -189,7 +202,7 @@ func runTeardown(w *World, rs *RunSpec) {
 	// The fault goroutine exists in the baseline too (its gate never opens), so
 	// that the schedule up to the fault point is the baseline's.
 	trigger := k
-	if cause < 0 || k < 0 || cause == CauseOpenDeadline {
+	if cause < 0 || k < 0 || cause == CauseOpenDeadline || fromHandler {
 		trigger = 1 << 30
 	}
 	w.AtFrame(trigger, "teardown", inject)
